@@ -145,6 +145,29 @@ def chunksRun (pieces : List (List Nat)) (direct : Bool) : String :=
   let (ys, rest') := Lines.eofLoop (buf.length + 2) buf
   s!"p={"|".intercalate outs} eof={resList ys} rest={toHex rest'}"
 
+/-- split a list into pieces of `c` elements (fuel: the length) -/
+def chunksOf (c : Nat) : Nat → List Nat → List (List Nat)
+  | 0, _ => []
+  | fuel + 1, l => if l.isEmpty then [] else l.take c :: chunksOf c fuel (l.drop c)
+
+/-- a token of the `framed` op: `p` (Pending), hex (one read, at most `maxChunk` bytes), or
+`x<len>/<chunk>`: `len` letters (`a` + i mod 26) offered in reads of `chunk` bytes -/
+def framedToken (h : String) : Option (List (Option (List Nat))) :=
+  if h == "p" then some [none]
+  else if h.startsWith "x" then
+    match (h.drop 1).toString.splitOn "/" with
+    | [n, c] =>
+      match n.toNat?, c.toNat? with
+      | some n, some c =>
+        if n ≤ 100000 && 0 < c && c ≤ 100000 then
+          some ((chunksOf c n ((List.range n).map (fun i => 97 + i % 26))).map some)
+        else none
+      | _, _ => none
+    | _ => none
+  else match parseHex h with
+    | some p => if p.length ≤ maxChunk then some [some p] else none
+    | none => none
+
 def parseCase (ws : List String) : Option State :=
   ws.foldlM (fun st w =>
     if w == "codec=lines" then some { st with sel := .lines }
@@ -259,10 +282,11 @@ def step (st : State) (line : String) : State × String :=
   -- `LinesCodec` under `Framed`: the non-empty pieces are the reads, then end of file
   | "framed" :: hs =>
     -- tokens: a piece of data (hex) or `p` = Pending
-    match hs.mapM (fun h => if h == "p" then some none else (parseHex h).map some) with
-    | some toks =>
+    match hs.mapM framedToken with
+    | some tokss =>
+      let toks := tokss.flatten
       let ps := toks.filterMap id
-      if toks.isEmpty || ps.any (fun p => p.length > maxChunk) then (st, "bad-op")
+      if toks.isEmpty then (st, "bad-op")
       else
         let script : List Framed.Rd := toks.filterMap (fun t => match t with
           | none => some .pending
